@@ -20,7 +20,9 @@ PROP = dict(
                   "the generation-1 dutch close penalty (V1Penalty) and the generation-2 TriggerEsm penalty are modelled and proved but not driven by the harness (same SetNetFeeCollectedData call shape as the driven generation-2 dutch close); esm.go's burn-and-decrease of net fees is covered only through its book half (DecreaseNetFeeCollectedData)",
                   "sdk.Int 256-bit overflow panics (amounts stay far below 2^255)"],
         assumptions=["block time never decreases", "WasmMsgGetSurplusFund is called with the coin denom of the asset it names (the contract supplies both)",
-                     "DecreaseNetFeeCollectedData is never called with a negative amount (none of its call sites can)"],
+                     "DecreaseNetFeeCollectedData is never called with a negative amount (none of its call sites can)",
+                     "DecreaseNetFeeCollectedData called on its own (only the harness does; in /repo it always follows a transfer or a burn out of the collector) lowers the books without moving coins: for it the flow clause is 'books fall, coins do not move' rather than equality",
+                     "users are plain accounts distinct from the module accounts (model: account ids >= 0)"],
     )
 
 MANIFEST = dict(
